@@ -382,6 +382,12 @@ def probe_functions(width: int):
     # an unused let is erased by the type checker and never evaluated; an unused expect is kept
     fn("let_unused", ib, INT, E("let", INT, (E("bin", INT, (a, b), "/"), a), "t"))
     fn("expect_unused", [("xs", t_list(INT)), ("a", INT)], INT, E("expect_pat", INT, (var("xs", t_list(INT)), a), PList([PVar("h0")], PDiscard())))
+    xs_ = var("xs", t_list(INT))
+    fn("when_list_tails_desc", [("xs", t_list(INT))], INT, E("when", INT, (xs_,), [
+        (PList([PDiscard(), PInt(0)], PDiscard()), lit_int(1)), (PList([PDiscard()], PDiscard()), lit_int(3)), (PDiscard(), lit_int(4))]))
+    fn("when_list_tails_asc", [("xs", t_list(INT))], INT, E("when", INT, (xs_,), [
+        (PList([PInt(1)], PDiscard()), lit_int(1)), (PList([PDiscard(), PInt(2)], PDiscard()), lit_int(2)),
+        (PList([PDiscard(), PDiscard(), PInt(3)], PDiscard()), lit_int(3)), (PDiscard(), lit_int(4))]))
     fn("expect_bool", ib, INT, E("expect_bool", INT, (E("bin", BOOL, (a, b), "<"), E("bin", INT, (b, a), "-"))))
     # ADTs
     sh, co, ac, wr = var("s", t_adt("Shape")), var("k", t_adt("Colour")), var("r", t_adt("Acc")), var("w", t_adt("Wrap"))
